@@ -3,8 +3,8 @@
    (OPickleParser) and the creation of a copy (OCopy).  The correspondence checks, observer by observer, that the raw key
    order of every attribute mapping and the reset hook of the parser change exactly as these steps say.
    snapshot = (getHTML text, (uid, name, parent, owner) of every element in document order, index, reset hook). *)
-From AHP Require Import Model.Base Model.Str Model.Attr Model.Dom Model.Serial Model.Search Model.Index Model.Observe
-     Proofs.AttrProofs Proofs.DomProofs Proofs.IndexProofs Proofs.ObserveProofs.
+From AHP Require Import Model.Base Model.Str Model.Attr Model.Dom Model.Serial Model.Search Model.Index Model.Observe Model.Parser
+     Proofs.AttrProofs Proofs.DomProofs Proofs.IndexProofs Proofs.ObserveProofs Proofs.IndexedParserProofs.
 
 (* any sequence of observers leaves the snapshot unchanged *)
 Theorem C16_snapshot_unchanged : forall os s, GoodAttrs (odoc s) -> snapshot (fold_left ostep os s) = snapshot s.
@@ -12,6 +12,9 @@ Proof. exact observers_snapshot. Qed.
 (* the hypothesis is an invariant of observing (and of every attribute write: AttrProofs.step_inv) *)
 Theorem C16_hypothesis_invariant : forall s o, GoodAttrs (odoc s) -> snapshot (ostep s o) = snapshot s /\ GoodAttrs (odoc (ostep s o)).
 Proof. exact ostep_snapshot. Qed.
+(* every parsed document (any parser class, retry included) meets the hypothesis *)
+Theorem C16_parsed_documents_meet_hypothesis : forall cls ts1 ts2 s root, feed cls ts1 ts2 = POk s -> tree_of s = Some root -> GoodAttrs root.
+Proof. exact parsed_good_attrs. Qed.
 (* the index stays in step: rebuilding it after the observers gives what rebuilding it before gives *)
 Theorem C16_index_in_step : forall os s, GoodAttrs (odoc s) -> forall c i, reindex c (odoc (fold_left ostep os s)) i = reindex c (odoc s) i.
 Proof. exact observers_index. Qed.
